@@ -3,7 +3,9 @@ package main
 import (
 	"bytes"
 	"fmt"
+	"github.com/fxamacker/cbor/v2"
 	"io"
+	"math/big"
 
 	cose "github.com/veraison/go-cose"
 )
@@ -265,6 +267,58 @@ func runC02(c *Collector, r *Rng, thorough bool) {
 	if thorough {
 		rn = 500
 	}
+	// ---- protected buckets holding integers beyond int64 (big.Int) and tagged values: the protected bytes handed to
+	// the signer are the protected bytes of the serialised message, and after the wire round trip the verifier is
+	// handed the same bytes again ----
+	for i := 0; i < rn; i++ {
+		alg := pick(r, goAlgs)
+		bigv := new(big.Int)
+		bigv.SetString(pick(r, []string{"9223372036854775808", "18446744073709551615", "18446744073709551616", "-9223372036854775809", "-18446744073709551617", "5"}), 10)
+		extra := pick(r, []any{*bigv, bigv, cbor.Tag{Number: 32, Content: "https://example.org/x"}, cbor.Tag{Number: 100, Content: int64(7)}, []any{*bigv, int64(1)}, map[any]any{int64(1): *bigv}})
+		ext := genGoExternal(r)
+		rep := map[string]any{"alg": int64(alg), "value": fmt.Sprintf("%T %v", extra, extra)}
+		c.Eval("protected-bignum-or-tag", fmt.Sprintf("%T", extra), true)
+		// COSE_Sign1
+		m := &cose.Sign1Message{Headers: cose.Headers{Protected: cose.ProtectedHeader{cose.HeaderLabelAlgorithm: alg, int64(-70010): extra}, Unprotected: cose.UnprotectedHeader{}}, Payload: []byte("payload")}
+		sg := &spySigner{alg: alg, kind: SOk, sig: genSigBytes(r)}
+		if err := m.Sign(nil, ext, sg); err == nil && len(sg.calls) == 1 {
+			out, merr := m.MarshalCBOR()
+			if merr != nil {
+				continue
+			}
+			w, perr := refParseFull(out)
+			if perr != nil {
+				continue
+			}
+			if signed := tbsElement(sg.calls[0], 1); !bytes.Equal(signed, w.Kids[0].Kids[0].Ser()) {
+				c.Fail("C02/sign1-structure", fmt.Sprintf("the signer was handed protected bytes %x, the serialised message carries %x", signed, w.Kids[0].Kids[0].Ser()), rep)
+				continue
+			}
+			var back cose.Sign1Message
+			if err := back.UnmarshalCBOR(out); err != nil {
+				c.Fail("C02/own-output-refused", "a message with such a protected value is serialised but refused by the decoder: "+err.Error(), rep)
+				continue
+			}
+			vf := &spyVerifier{alg: alg}
+			if err := back.Verify(ext, vf); err != nil || len(vf.calls) != 1 || !bytes.Equal(vf.calls[0].content, sg.calls[0]) {
+				c.Fail("C02/verify1-structure", fmt.Sprintf("after the wire round trip the verifier was handed %x (%v), the signer had signed %x", vfirst(vf), err, sg.calls[0]), rep)
+			}
+		}
+		// COSE_Sign signer layer
+		sm := &cose.SignMessage{Headers: cose.Headers{Protected: cose.ProtectedHeader{int64(-70011): extra}}, Payload: []byte("payload"),
+			Signatures: []*cose.Signature{{Headers: cose.Headers{Protected: cose.ProtectedHeader{cose.HeaderLabelAlgorithm: alg, int64(-70012): extra}}}}}
+		sg2 := &spySigner{alg: alg, kind: SOk, sig: genSigBytes(r)}
+		if err := sm.Sign(nil, ext, sg2); err == nil && len(sg2.calls) == 1 {
+			if out, merr := sm.MarshalCBOR(); merr == nil {
+				if w, perr := refParseFull(out); perr == nil {
+					body := w.Kids[0]
+					if !bytes.Equal(tbsElement(sg2.calls[0], 1), body.Kids[0].Ser()) || !bytes.Equal(tbsElement(sg2.calls[0], 2), body.Kids[3].Kids[0].Kids[0].Ser()) {
+						c.Fail("C02/signature-structure", fmt.Sprintf("COSE_Sign: the signer was handed body / signer protected bytes %x / %x, the serialised message carries %x / %x", tbsElement(sg2.calls[0], 1), tbsElement(sg2.calls[0], 2), body.Kids[0].Ser(), body.Kids[3].Kids[0].Kids[0].Ser()), rep)
+					}
+				}
+			}
+		}
+	}
 	// ---- a caller's Signer / Verifier that also offers SignDigest / VerifyDigest (as the built-in ones do): the
 	// library still hands it the Sig_structure through Sign / Verify, for every structure ----
 	for i := 0; i < rn; i++ {
@@ -383,4 +437,11 @@ type spyDigestVerifier struct {
 func (v *spyDigestVerifier) VerifyDigest(digest, sig []byte) error {
 	v.digestCalls++
 	return nil
+}
+
+func vfirst(v *spyVerifier) []byte {
+	if len(v.calls) == 0 {
+		return nil
+	}
+	return v.calls[0].content
 }
